@@ -11,19 +11,15 @@ import (
 // (golang.org/x/sync/errgroup in blobAccessMutableProtoStore.Get). simrewrite
 // only names goroutines started by `go` statements of the repository itself,
 // so errgroup workers reach our fake ISCC as goroutines the kernel does not
-// know; their next ss.lock.Lock() would be a HarnessError. The design (§1.3
-// T3, §1.4) says such workers are "named at their first seam"; the kernel has
-// no exported call for that, and this world may not change the kernel, so the
-// registration is done here through reflection on the kernel's bookkeeping
-// (names / actors maps under its mutex). Everything else (parking, lock
-// tickets, resumption) is the kernel's ordinary machinery.
+// know; they are registered at their first seam with Kernel.AdoptCurrent and
+// retired with Kernel.Retire when the store's Get call that owns them has
+// returned.
 //
-// An adopted goroutine has no recover frame of the kernel below it, so it
-// must never be poisoned by Kernel.Teardown: world.windDown lets every
-// adopted goroutine run to completion before the world function returns and,
-// where the code under test is deadlocked, hides the remaining ones from
-// Teardown (they stay blocked in the dead bubble, which simrun counts as a
-// leaked bubble).
+// An adopted goroutine has no recover frame of the kernel below it and is
+// never poisoned by Kernel.Teardown: persist.windDown lets every adopted
+// goroutine run to completion before the world function returns and, where
+// the code under test is deadlocked, retires the remaining ones (they stay
+// blocked in the dead bubble, which simrun counts as a leaked bubble).
 
 type adopted struct {
 	actor   *simsync.Actor
